@@ -4,7 +4,7 @@ use crate::abnf::Prod;
 use crate::ctx::{Case, Ctx};
 use crate::{both_families, fam, gen};
 
-pub const RULE: &str = "cases: all strings up to a length bound over the alphabet {a : / ? # @ . e-acute} that the RFC model accepts as references (exhaustive), plus grammar-derived random references with delimiters inside later components, empty-but-present components, all path forms and multi-byte text; each is decomposed through scheme/authority/path/query/fragment/parts of RiRef, RiRefBuf, Ri, RiBuf in both families and compared with the Appendix-B split. Non-trivial = a valid reference with at least one of scheme/authority/query/fragment present; distinct by input text";
+pub const RULE: &str = "cases: all strings up to a length bound over the alphabet {a : / ? # @ . e-acute} that the RFC model accepts as references (exhaustive), plus grammar-derived random references with delimiters inside later components, empty-but-present components, all path forms and multi-byte text; each is decomposed through scheme/authority/path/query/fragment/parts of RiRef, RiRefBuf, Ri, RiBuf in both families and compared with the Appendix-B split. Components are also generated at every length 0-70 and around 127/255/511/1023/4095/65535; schemes include words near well-known schemes (https+x, httpsx, htt ...). Non-trivial = a valid reference with at least one of scheme/authority/query/fragment present; distinct by input text";
 
 pub const MANDATORY: &[&str] = &[
     "shape:----", "shape:S---", "shape:-A--", "shape:SA--", "shape:SAQF", "shape:--Q-", "shape:---F", "path:empty", "path:absolute",
